@@ -300,11 +300,20 @@ def signal_probe(p):
     _, Wcs = ocp.sample(wc, grid="control")
     Wv = ocp.value(w); Qv = ocp.value(q)
     gvec = opti.g if opti.g.numel() else ca.MX.zeros(0, 1)
-    F = ca.Function("F", [opti.x, opti.p], [Xs, Us, Ss, ts, Wv, Qv, gvec, Wcs])
+    # Opti lists only the symbols that occur in constraints / objective (none under SingleShooting here): every symbol of
+    # the sampled expressions is an input, parameters at their set values, decision variables at random values
+    outs = [Xs, Us, Ss, ts, Wv, Qv, gvec, Wcs]
+    syms = ca.symvar(ca.veccat(*[ca.vec(ca.MX(o)) for o in outs]))
+    F = ca.Function("F", syms, outs)
     rs = np.random.RandomState(p.get("seed", 0))
-    xv = rs.uniform(0.3, 1.3, size=opti.x.numel())
-    pv = np.array(opti.debug.value(opti.p, opti.value_parameters())).reshape(-1)
-    X, U, S, t, W, Q, g, WC = [np.array(v) for v in F(xv, pv)]
+    vals = []
+    for s_ in syms:
+        try:
+            vals.append(np.array(opti.debug.value(s_, opti.value_parameters())))
+        except Exception:
+            vals.append(rs.uniform(0.3, 1.3, size=s_.shape))
+    xv = np.concatenate([np.array(v).reshape(-1) for v in vals]) if vals else np.zeros(0)
+    X, U, S, t, W, Q, g, WC = [np.array(v) for v in F(*vals)]
     xs = ca.MX.sym("x", 2); a = ca.MX.sym("a", 5)
     f = ca.Function("f", [xs, a], [ufun("f", 2, [xs, a[0], a[1], a[2], a[3], a[4]])])
     t = t.reshape(-1)
